@@ -9,7 +9,7 @@
 From Coq Require Import List Arith Bool Lia Reals Lra Psatz ZArith.
 From NV Require Import Scalar.Ops Model.Common Model.Geom2D Proofs.Geom2DR.
 Import ListNotations.
-Open Scope R_scope.
+Local Open Scope R_scope.
 
 Definition Lf (ax ay bx by_ x t : R) : R := (bx - x) * (t - ay) + (ax - x) * (by_ - t).
 Definition wn_edge_sc (ax ay bx by_ x t : R) : Z :=
